@@ -291,7 +291,7 @@ func runC05(e *Env) {
 		"IsAborted()==true without an abort is attributed to known finding KF1 only if the observed trace equals the cursor model's trace and differs from the specification only in such samples",
 	}
 	e.Exhaustive = true
-	maxL := int(e.N(7, 9))
+	maxL := int(e.N(7, 10))
 	kinds := []string{"Abort", "AbortThen", "AbortWithStatus", "AbortWithStatusMsg"}
 	whens := []string{"before", "after", "without"}
 	// enumerate: for each L: j (L) x kind (4) x when (3) x extra (2) x write (2) x subset (2^(L-1))
@@ -362,7 +362,7 @@ func runC05(e *Env) {
 	})
 
 	// sampled long chains
-	e.RunCases("long-chains", e.N(3000, 200000), 0, func(t *T) {
+	e.RunCases("long-chains", e.N(3000, 2000000), 0, func(t *T) {
 		r := t.R
 		total := pick(r, []int{9, 12, 20, 31, 32, 33, 40, 50, 61, 62, 63, 63})
 		cc := c05Chain{}
